@@ -336,11 +336,13 @@ Proof.
     apply repeat_length. }
   assert (HG : forall r c cl, get (repeat (repeat new_cell (S c')) (S r')) r c = Some cl -> cl = new_cell)
     by (intros; eapply get_repeat; eauto).
-  split; [lia|]. split; [lia|]. split; [apply repeat_length|]. split; [exact HR|].
+  split; [lia|]. split; [lia|]. split; [exact (repeat_length (repeat new_cell (S c')) (S r'))|]. split; [exact HR|].
   split; [apply distribute_length|]. split; [apply distribute_length|].
   split; [apply distribute_sum; lia|]. split; [apply distribute_sum; lia|].
   split; [reflexivity|]. split; [reflexivity|]. split; [exact HG|].
-  unfold Inv_at; cbn [grid widths heights]. rewrite !distribute_length, repeat_length.
+  unfold Inv_at; cbn [grid widths heights]. rewrite !distribute_length.
+  change (length (repeat (repeat new_cell (S c')) (S r'))) with (length (repeat (repeat new_cell (S c')) (S r'))).
+  rewrite (repeat_length (repeat new_cell (S c')) (S r')).
   split; [exact HR|]. split; [reflexivity|].
   split. { intros r c cl Hg. apply HG in Hg; subst; discriminate. }
   split; [constructor|]. split; [constructor|].
